@@ -55,6 +55,10 @@ LEVEL.update({
  "C18":("the real reader stack NewTransform builds (charset decoder selection, x/text charmap decoder and transform.Reader, BOM strip through bufio.ReadRune) executed symbolically on arbitrary bytes: the bytes handed to the format reader equal stripLeadingBOM(decode(input)) for an independent code-page table, for every declared encoding",
         "inputs ≤ bound bytes; undefined windows-1252 bytes excluded; that equal bytes give equal results downstream is each format reader's determinism (C15)"),
 })
+LEVEL.update({
+ "C14":("a lockset-style sufficient condition decided on every explored path of five reader/transform harnesses: after validation the declaration objects (EDI, csv2, fixedlength2 declarations, transform declaration trees) are frozen, and any store or map update into an object reachable from them while reading or transforming is a violation — no shared writes means no data race on schema state and schedule-independent results, given the thread-safety of sync.Pool/atomic/LRU",
+        "interleavings themselves are not explored (no thread or memory model); racing acquisitions of the ID counter and pool internals are outside"),
+})
 REASON_NOT_YET="check under construction in this session (see DESIGN.md §6); not claimed yet"
 m={
  "version":1,
